@@ -9,10 +9,10 @@ import (
 
 func init() {
 	register(&propCheck{
-		id:    "C04",
-		level: "other",
-		explanation: "Static decision of the link clause of 'recursive removal stays inside the tree': the removal code never bases a descend or an already-gone decision on a stat that follows links. Over the removal call graph R (functions of package filesystem reachable from RemoveWithContextAndExclusionPatterns, CleanDirWithContextAndExclusionPatterns, RemoveWithPrivileges and garbageCollect): (N1) every call that lists or recurses into a path that can be a child (CleanDir*, Ls*, garbageCollectDir) is preceded by an Lstat of that very path whose 'is a symbolic link' side cannot reach the descent — or the path is the parameter of a function that only lists, whose call sites carry the obligation; (N2) a successful return taken because a link-following Exists() said 'not there' is preceded by that same Lstat test (a dangling link does not exist for Stat); (N3) the only removal primitives in R are afero.Fs.Remove — which unlinks a link and never follows it — and the privileged fallback; RemoveAll is never introduced. Decided on SSA with the static call graph; nothing is executed. Not decided: exclusion semantics (C08), the bit-for-bit state of the rest of the sandbox, backends that cannot Lstat.",
-		run:   runC04,
+		id:              "C04",
+		level:           "other",
+		explanation:     "Static decision of the link clause of 'recursive removal stays inside the tree': the removal code never bases a descend or an already-gone decision on a stat that follows links. Over the removal call graph R (functions of package filesystem reachable from RemoveWithContextAndExclusionPatterns, CleanDirWithContextAndExclusionPatterns, RemoveWithPrivileges and garbageCollect): (N1) every call that lists or recurses into a path that can be a child (CleanDir*, Ls*, garbageCollectDir) is preceded by an Lstat of that very path whose 'is a symbolic link' side cannot reach the descent — or the path is the parameter of a function that only lists, whose call sites carry the obligation; (N2) a successful return taken because a link-following Exists() said 'not there' is preceded by that same Lstat test (a dangling link does not exist for Stat); (N3) the only removal primitives in R are afero.Fs.Remove — which unlinks a link and never follows it — and the privileged fallback; RemoveAll is never introduced. Decided on SSA with the static call graph; nothing is executed. Not decided: exclusion semantics (C08), the bit-for-bit state of the rest of the sandbox, backends that cannot Lstat.",
+		run:             runC04,
 		thoroughConfigs: []string{"darwin/amd64", "windows/amd64"},
 		assumptions: []string{
 			"afero.Fs.Remove on a symbolic link removes the link itself (os.Remove semantics)",
